@@ -15,7 +15,7 @@ LEVEL = "proof"
 
 MANIFEST = {
     "technique": 'Coq proof (exact characterisation of emplace/collect) + differential correspondence',
-    "text": 'Theorems C02_evolution / C02_tree_evolution / C02_chain (chains of models of any length) / C02_chain_step_shape: regenerated file = fresh file of the new model with the old block of the same cleaned name under each tag; nothing else depends on the old model.',
+    "text": 'Theorems C02_evolution / C02_tree_evolution / C02_chain (chains of models of any length) / C02_chain_step_shape / C02_old_model_irrelevant: regenerated file = fresh file of the new model with the old block of the same cleaned name under each tag; nothing else depends on the old model.',
     "note": PRES_NOTE,
 }
 RULE = ("cases = (generator kind, model m, mutated model m' (row/state/event/guard/action added, removed, renamed, reordered; other "
